@@ -312,7 +312,10 @@ def run_check(prop: Prop, tier: str, seed: int) -> int:
             impl_out.append("skipped-after-timeouts")
             continue
         try:
-            impl_out.append(prop.impl(l))
+            o = prop.impl(l)
+            impl_out.append(o)
+            if any(k in o for k in ("RealTimeLimit", "TimeLimit(", "Spin(", "Deadlock(")):
+                stuck += 1
         except Exception as e:  # harness bug or unexpected exception kind
             impl_out.append("harness-exc " + type(e).__name__ + ": " + str(e)[:100])
             if type(e).__name__ in ("RealTimeLimit", "TimeLimit", "Spin", "Deadlock"):
